@@ -215,7 +215,7 @@ func (x *c19ctx) mergeScanRules(itemsFld, startFld, endFld *types.Var) {
 	c := x.c
 	var scope []*ssa.Function
 	inScope := map[*ssa.Function]bool{}
-	for _, f := range core.TransitiveCallees(x.sortFn, 3) {
+	for _, f := range core.TransitiveCallees(x.sortFn, 5) {
 		if core.FuncPkgRel(f) == c19pkg && !inScope[f] {
 			inScope[f] = true
 			scope = append(scope, f)
@@ -298,19 +298,29 @@ func (x *c19ctx) mergeScanRules(itemsFld, startFld, endFld *types.Var) {
 	// ---- (2) calls that receive a pair of indices ----
 	// roles of the index parameters of a merge helper: the element whose
 	// startIP is overwritten absorbs, the element it is copied from is absorbed
+	// (the store may sit in a private helper of fn: its index parameters are
+	// followed back to the arguments fn passes)
+	isAbsorb := func(in ssa.Instruction) (tbase, sbase ssa.Value, ok bool) {
+		st, isSt := in.(*ssa.Store)
+		if !isSt {
+			return nil, nil, false
+		}
+		tf, tb := uuFieldAddr(st.Addr)
+		if tf != startFld {
+			return nil, nil, false
+		}
+		sf, sb, isBound := c19bound(st.Val, startFld, endFld)
+		if !isBound || sf != startFld {
+			return nil, nil, false
+		}
+		return tb, sb, true
+	}
 	roles := func(fn *ssa.Function) (tgt, src int, ok bool) {
 		tgt, src = -1, -1
-		for _, in := range uuInstrs(fn) {
-			st, isSt := in.(*ssa.Store)
-			if !isSt {
-				continue
-			}
-			tf, tbase := uuFieldAddr(st.Addr)
-			if tf != startFld {
-				continue
-			}
-			sf, sbase, isBound := c19bound(st.Val, startFld, endFld)
-			if !isBound || sf != startFld {
+		reg := uuRegionOf(c.P, fn)
+		for _, in := range reg.instrs() {
+			tbase, sbase, isA := isAbsorb(in)
+			if !isA {
 				continue
 			}
 			ti, si := c19elemIndex(tbase), c19elemIndex(sbase)
@@ -318,15 +328,20 @@ func (x *c19ctx) mergeScanRules(itemsFld, startFld, endFld *types.Var) {
 				continue
 			}
 			for i, p := range fn.Params {
-				if uuResolve(ti) == ssa.Value(p) {
+				prm := ssa.Value(p)
+				if reg.all(ti, func(o ssa.Value) bool { return o == prm }) {
 					tgt = i
 				}
-				if uuResolve(si) == ssa.Value(p) {
+				if reg.all(si, func(o ssa.Value) bool { return o == prm }) {
 					src = i
 				}
 			}
 		}
 		return tgt, src, tgt >= 0 && src >= 0 && tgt != src
+	}
+	// mayAbsorb: fn, or a function of the package it calls, joins two ranges
+	mayAbsorb := func(fn *ssa.Function) bool {
+		return core.MayPass(fn, func(in ssa.Instruction) bool { _, _, ok := isAbsorb(in); return ok }, 2)
 	}
 	// a condition that means "this entry is already merged"
 	var isMergedTest func(cond ssa.Value, depth int) bool
@@ -383,7 +398,9 @@ func (x *c19ctx) mergeScanRules(itemsFld, startFld, endFld *types.Var) {
 					nInt++
 				}
 			}
-			if nInt < 2 {
+			if nInt < 2 || !mayAbsorb(callee) {
+				// not a call that offers a pair to the merge test (e.g. a helper
+				// that only marks the entries between two indices as merged)
 				continue
 			}
 			nCalls++
@@ -459,31 +476,35 @@ func (x *c19ctx) mergeScanRules(itemsFld, startFld, endFld *types.Var) {
 						if reach[s] || !l.l.Body[s] {
 							continue // exits are the subject of single-exit
 						}
-						cond, pol := ssa.Value(iff.Cond), i == 0
-						for {
-							u, ok := cond.(*ssa.UnOp)
-							if !ok || u.Op != token.NOT {
-								break
+						cond, pol := uuStripNot(iff.Cond, i == 0)
+						// the skip edge is taken only for entries that are already
+						// merged or for provably disjoint ranges (absorbed.end <
+						// absorbing.start); a condition evaluated into a named
+						// boolean (`merged := a || b; if merged`) is followed
+						// through its phi: the fact must hold on every live edge
+						okSkip := func(g core.Guard) bool {
+							gc, gp := uuStripNot(g.Cond, g.Pol)
+							if gp && isMergedTest(gc, 0) {
+								return true
 							}
-							cond, pol = u.X, !pol
-						}
-						if pol && isMergedTest(cond, 0) {
-							continue
-						}
-						// provably disjoint: absorbed.end < absorbing.start
-						if cmp, set, ok := uuCmpSet(iff.Cond, i == 0); ok && aT != nil {
+							cmp, set, ok := uuCmpSet(g.Cond, g.Pol)
+							if !ok || aT == nil {
+								return false
+							}
 							fa, ea, okA := c19bound(cmp.Call.Args[0], startFld, endFld)
 							fb, eb, okB := c19bound(cmp.Call.Args[1], startFld, endFld)
-							if okA && okB {
-								ia, ib := c19elemIndex(ea), c19elemIndex(eb)
-								if fa == startFld && fb == endFld {
-									fa, fb, ia, ib = fb, fa, ib, ia
-									set[0], set[2] = set[2], set[0]
-								}
-								if fa == endFld && fb == startFld && ia == aS && ib == aT && set == [3]bool{true, false, false} {
-									continue
-								}
+							if !okA || !okB {
+								return false
 							}
+							ia, ib := c19elemIndex(ea), c19elemIndex(eb)
+							if fa == startFld && fb == endFld {
+								fa, fb, ia, ib = fb, fa, ib, ia
+								set[0], set[2] = set[2], set[0]
+							}
+							return fa == endFld && fb == startFld && ia == aS && ib == aT && set == [3]bool{true, false, false}
+						}
+						if uuSat(uuMkGuard(iff.Cond, i == 0, iff), okSkip, 0) {
+							continue
 						}
 						pfx := ""
 						if !pol {
